@@ -38,7 +38,7 @@ inductive Outcome (α : Type) where
   | done (a : α)
   | panic
   | fuelOut
-deriving Repr
+deriving Repr, DecidableEq
 
 /-- `for a in l { s = f(s, a)? }` — `none` = a panic inside the body -/
 def iterM {σ α : Type} (f : σ → α → Option σ) : List α → σ → Option σ
